@@ -1,3 +1,98 @@
 #!/bin/bash
-# placeholder until the rand seam (C15) is built: nothing to vendor yet
-exit 0
+# Produce harness/vendor/rand: the registry source of rand 0.9.2 with a test seam in ThreadRng
+# (thread-local replacement source consulted by next_u32 / next_u64 / fill_bytes; without an
+# installed source the real ChaCha generator is used). Offline: reads the cargo registry only.
+set -e
+here="$(cd "$(dirname "$0")/.." && pwd)"
+dst="$here/harness/vendor/rand"
+src=$(ls -d "${CARGO_HOME:-$HOME/.cargo}"/registry/src/*/rand-0.9.2 2>/dev/null | head -1)
+[ -n "$src" ] || { echo "rand-0.9.2 not in the cargo registry"; exit 1; }
+want="$(cd "$src" && cat src/rngs/thread.rs src/rngs/mod.rs | sha256sum | cut -d' ' -f1)"
+if [ -f "$dst/.verif-patched" ] && [ "$(cat "$dst/.verif-patched")" = "$want" ]; then :; else
+rm -rf "$dst"; mkdir -p "$here/harness/vendor"; cp -r "$src" "$dst"; chmod -R u+w "$dst"
+python3 - "$dst" <<'PY'
+import sys,re
+d=sys.argv[1]
+p=d+'/src/rngs/thread.rs'; s=open(p).read()
+seam='''
+// ---- verification seam (added by /verif/vendor-patch/make_vendor.sh) ----
+thread_local! {
+    static VERIF_SOURCE: core::cell::RefCell<Option<std::boxed::Box<dyn FnMut() -> u64>>> = const { core::cell::RefCell::new(None) };
+}
+/// Install (Some) or remove (None) a replacement source for this thread's `ThreadRng`.
+pub fn verif_set_source(f: Option<std::boxed::Box<dyn FnMut() -> u64>>) {
+    VERIF_SOURCE.with(|s| *s.borrow_mut() = f);
+}
+#[inline]
+fn verif_next() -> Option<u64> {
+    VERIF_SOURCE.with(|s| s.borrow_mut().as_mut().map(|f| f()))
+}
+// ---- end of seam ----
+
+impl RngCore for ThreadRng {'''
+assert s.count('impl RngCore for ThreadRng {')==1
+s=s.replace('impl RngCore for ThreadRng {', seam)
+s=s.replace('''    fn next_u32(&mut self) -> u32 {
+        // SAFETY''','''    fn next_u32(&mut self) -> u32 {
+        if let Some(v) = verif_next() { return (v >> 32) as u32; }
+        // SAFETY''')
+s=s.replace('''    fn next_u64(&mut self) -> u64 {
+        // SAFETY''','''    fn next_u64(&mut self) -> u64 {
+        if let Some(v) = verif_next() { return v; }
+        // SAFETY''')
+s=s.replace('''    fn fill_bytes(&mut self, dest: &mut [u8]) {
+        // SAFETY''','''    fn fill_bytes(&mut self, dest: &mut [u8]) {
+        if let Some(first) = verif_next() {
+            let mut w = first;
+            for (i, chunk) in dest.chunks_mut(8).enumerate() {
+                if i > 0 { w = verif_next().unwrap_or(w); }
+                for (b, x) in chunk.iter_mut().zip(w.to_le_bytes()) { *b = x; }
+            }
+            return;
+        }
+        // SAFETY''')
+assert s.count('verif_next()')>=4
+open(p,'w').write(s)
+p=d+'/src/rngs/mod.rs'; s=open(p).read()
+assert 'pub use self::thread::ThreadRng;' in s
+s=s.replace('pub use self::thread::ThreadRng;','pub use self::thread::ThreadRng;\n#[cfg(feature = "thread_rng")]\npub use self::thread::verif_set_source;')
+open(p,'w').write(s)
+PY
+rm -f "$dst/.cargo-checksum.json" "$dst/.cargo-ok" "$dst/.cargo_vcs_info.json"
+echo "$want" > "$dst/.verif-patched"
+fi
+
+# ---- datafake-rs 0.2.1: clock seam (the "date"/"datetime" generators read Utc::now()) ----
+dst2="$here/harness/vendor/datafake-rs"
+src2=$(ls -d "${CARGO_HOME:-$HOME/.cargo}"/registry/src/*/datafake-rs-0.2.1 2>/dev/null | head -1)
+[ -n "$src2" ] || { echo "datafake-rs-0.2.1 not in the cargo registry"; exit 1; }
+want2="$(cd "$src2" && cat src/operators/fake.rs src/lib.rs | sha256sum | cut -d' ' -f1)"
+if [ -f "$dst2/.verif-patched" ] && [ "$(cat "$dst2/.verif-patched")" = "$want2" ]; then exit 0; fi
+rm -rf "$dst2"; cp -r "$src2" "$dst2"; chmod -R u+w "$dst2"
+python3 - "$dst2" <<'PY'
+import sys
+d=sys.argv[1]
+p=d+'/src/operators/fake.rs'; s=open(p).read()
+n=s.count('Utc::now()'); assert n>=2, n
+s=s.replace('Utc::now()','crate::verif_clock::now()')
+open(p,'w').write(s)
+p=d+'/src/lib.rs'; s=open(p).read()
+s+="""
+/// verification seam (added by /verif/vendor-patch/make_vendor.sh): thread-local replacement clock
+pub mod verif_clock {
+    use chrono::{DateTime, TimeZone, Utc};
+    thread_local! { static NOW: std::cell::Cell<Option<i64>> = const { std::cell::Cell::new(None) }; }
+    /// Install (Some(unix seconds)) or remove (None) the replacement clock of this thread.
+    pub fn set(t: Option<i64>) { NOW.with(|c| c.set(t)); }
+    pub fn now() -> DateTime<Utc> {
+        match NOW.with(|c| c.get()) {
+            Some(t) => Utc.timestamp_opt(t, 0).single().unwrap_or_else(Utc::now),
+            None => Utc::now(),
+        }
+    }
+}
+"""
+open(p,'w').write(s)
+PY
+rm -f "$dst2/.cargo-checksum.json" "$dst2/.cargo-ok" "$dst2/.cargo_vcs_info.json"
+echo "$want2" > "$dst2/.verif-patched"
